@@ -103,8 +103,9 @@ def fam_control():
         els = "" if c is None else " anders { %s }" % c
         ch = "als %s < %s { %s } anders als %s < %s { %s }%s" % (H0, H1, a, H1, H2, b, els)
         nm = "%s/%s/%s" % (an, bn, cn)
-        out.append(("ctl:chain-value:" + nm, "stel t = 0; stel r = %s; [r, t]" % ch))
-        out.append(("ctl:chain-in-func:" + nm, "stel t = 0; functie f(n) { %s }; [f(0), t]" % ch))
+        # (the observation must not start with '[': `anders als` swallows the ';' and `[..]` would index the chain)
+        out.append(("ctl:chain-value:" + nm, "stel t = 0; stel r = %s; stel uit = [r, t]; uit" % ch))
+        out.append(("ctl:chain-in-func:" + nm, "stel t = 0; functie f(n) { %s }; stel uit = [f(0), t]; uit" % ch))
     # (3) loops: every body ending, 0/1/2/many iterations through a symbolic bound
     for ln, l in lasts:
         out.append(("ctl:loop-sym:" + ln, "stel t = 0; stel i = 0; zolang i < %s { i += 1; %s }; [i, t]" % (H0, l)))
@@ -113,7 +114,7 @@ def fam_control():
                     "stel t = 0; functie g(a, b) { a * 2 + b }; stel i = 0; zolang i < 3 { i += 1; %s }; [g(i, t), g(1, 2)]" % l))
     # (4) early exits at every depth
     for (en, e), depth in itertools.product(EXITS.items(), range(0, 4)):
-        body = e
+        body = e.rstrip(";")
         for d in range(depth):
             body = ["als %s < %s { %s } anders { t = t + 1; }" % (H1, H2, body), "{ %s }" % body,
                     "als t > 100 { t = 0; } anders { %s }" % body][d % 3]
@@ -211,7 +212,7 @@ def fam_scoping():
         ("scope:fn-in-fn", "functie outer(a) { stel g = functie(b) { b * 2 }; g(a) + 1 }; outer(%s)" % H0),
         ("scope:recursion-locals", "functie f(n) { stel mine = n * 10; als n > 0 { f(n - 1); }; mine }; f(%s)" % H0),
         ("scope:loop-body-decl", "stel s = 0; stel i = 0; zolang i < %s { stel sq = i * i; s = s + sq; i += 1; }; s" % H0),
-        ("scope:loop-body-redecl", "stel s = 0; stel i = 0; zolang i < 3 { stel v = i; stel v = v + %s; s = s + v; i += 1; }; s" % H0),
+        ("scope:loop-body-redecl", "stel s = 0; stel i = 0; zolang i < 3 { stel v = i; stel w = v + %s; stel v = w; s = s + v; i += 1; }; s" % H0),
         ("scope:if-branch-decl", "stel r = 0; als %s < %s { stel v = 1; r = v; } anders { stel v = 2; stel w = v + 1; r = w; }; r" % (H0, H1)),
         ("scope:same-name-everywhere", "stel x = %s; functie f(x) { { stel x = x + 1; x } }; { stel x = f(x); x = x + 1; }; [x, f(x)]" % H0),
         ("scope:assign-outer-from-inner", "stel a = 0; { { a = %s; }; stel a = 5; a = 6; }; a" % H0),
@@ -542,4 +543,66 @@ def fam_random(seed, n):
     for i in range(n):
         rng = random.Random((seed + 1) * 1000003 + i)
         out.append(("rnd:%d:%d" % (seed, i), RandGen(rng).program()))
+    return out
+
+
+# ------------------------------------------------------------------ C10: program pairs (2-safety)
+MIRROR = {"<": ">", "<=": ">=", ">": "<", ">=": "<=", "==": "==", "!=": "!=", "+": "+", "*": "*"}
+
+
+def wrap_in_function(p):
+    return "functie hoofd__() { %s }; hoofd__()" % p
+
+
+def prepend_literals(p, k=0):
+    pres = ["stel z1__ = %s; stel z2__ = 424242; " % H0, "stel z1__ = [7, %s, 1, 0, 2]; " % H1,
+            'stel z1__ = 3; stel z2__ = 1.5; stel z3__ = "ab"; stel z4__ = %s; ' % H2]
+    return pres[k % len(pres)] + p
+
+
+def is_function_free(p):
+    return "functie" not in p
+
+
+def fam_pairs():
+    out = []
+    operands = [("pos", H0, H1), ("negl", "(0 - %s)" % H0, H1), ("negr", H0, "(0 - %s - 1)" % H1)]
+    for n, op in OPS:
+        for on, a, b in operands:
+            base = "%s %s %s" % (a, op, b)
+            nm = "%s:%s" % (n, on)
+            out.append(("pair:local-lit:" + nm, base, "functie f(n) { n %s %s }; f(%s)" % (op, b, a)))
+            out.append(("pair:lit-local:" + nm, base, "functie f(n) { %s %s n }; f(%s)" % (a, op, b)))
+            out.append(("pair:global-lit:" + nm, base, "stel g = %s; g %s %s" % (a, op, b)))
+            out.append(("pair:lit-global:" + nm, base, "stel g = %s; %s %s g" % (b, a, op)))
+            out.append(("pair:var-var:" + nm, base, "stel x = %s; stel y = %s; x %s y" % (a, b, op)))
+            out.append(("pair:local-local:" + nm, base, "functie f(x, y) { x %s y }; f(%s, %s)" % (op, a, b)))
+            out.append(("pair:local-in-block:" + nm, base, "functie f(n) { stel pad = 1; { stel m = n; m %s %s } }; f(%s)" % (op, b, a)))
+            out.append(("pair:second-local:" + nm, base, "functie f(p, n) { stel q = p; n %s %s }; f(0, %s)" % (op, b, a)))
+            if op in MIRROR:
+                out.append(("pair:mirror-lit:" + nm, base, "%s %s %s" % (b, MIRROR[op], a)))
+                out.append(("pair:mirror-local:" + nm, "functie f(n) { %s %s n }; f(%s)" % (a, op, b),
+                            "functie f(n) { n %s %s }; f(%s)" % (MIRROR[op], a, b)))
+                out.append(("pair:mirror-local2:" + nm, "functie f(n) { n %s %s }; f(%s)" % (op, b, a),
+                            "functie f(n) { %s %s n }; f(%s)" % (b, MIRROR[op], a)))
+    # literal operand vs variable holding it, inside richer expressions
+    exprs = ["x * 2 + %s" % H1, "(%s - x) %% 7" % H1, "[x, %s, x + %s]" % (H1, H1), "als x < %s { x } anders { %s }" % (H1, H1),
+             "x / %s + x %% %s" % (H1, H1)]
+    for i, e in enumerate(exprs):
+        a = "functie f(x) { %s }; f(%s)" % (e, H0)
+        b = "functie f(x) { stel k = %s; %s }; f(%s)" % (H1, e.replace(H1, "k"), H0)
+        out.append(("pair:lit-vs-var:%d" % i, a, b))
+        out.append(("pair:lit-vs-var-top:%d" % i, "stel x = %s; %s" % (H0, e), "stel x = %s; stel k = %s; %s" % (H0, H1, e.replace(H1, "k"))))
+    # generic transformations over closed, function-free programs
+    closed = []
+    for fam in (fam_control, fam_scoping, fam_sequences, fam_compose, fam_boundary, fam_builtins):
+        closed += [(n, p) for n, p in fam() if is_function_free(p) and p.strip() and "//" not in p and "antwoord" not in p
+                   and "self-init" not in n]
+    closed += [(n, p) for n, p in fam_exhaustive(2) if is_function_free(p)]
+    for i, (n, p) in enumerate(closed):
+        out.append(("pair:wrap:" + n, p, wrap_in_function(p)))
+        out.append(("pair:prepend:" + n, p, prepend_literals(p, i)))
+    # wrapped AND prepended, a few
+    for i, (n, p) in enumerate(closed[::7]):
+        out.append(("pair:wrap-prepend:" + n, p, wrap_in_function(prepend_literals(p, i))))
     return out
